@@ -167,6 +167,43 @@ def build(run):
         return proved("exec+z3", vcs=n + 1, sample="shape-changing mappings raise; unexpanded derivatives are expanded before replacing")
     run.add("replace/shape-and-derivative-guards", shapes, kind="values")
 
+    # ---- images that are constant on each cell, under every differential operator, for fields whose value shape differs from the geometric dimension (the
+    # node is rebuilt around the image and may fold to a zero: shape and value of the expression are those of the operator applied to the image)
+    def constant_images():
+        import ufl as _u
+        from ufv import elements as _E2
+        msh = t["msh"]
+        cell_ = msh.ufl_cell()
+        n = 0
+        for sh in ((), (3,), (3, 2), (2, 3), (2,)):
+            fld = _u.Coefficient(_u.FunctionSpace(msh, _E2.LagrangeElement(cell_, 2, sh)))
+            images = {"Constant": _u.Constant(msh, sh), "DG0 coefficient": _u.Coefficient(_u.FunctionSpace(msh, _E2.FiniteElement("DG", cell_, 0, sh, _pb.identity_pullback, _sb.L2))),
+                      "P1 coefficient": _u.Coefficient(_u.FunctionSpace(msh, _E2.LagrangeElement(cell_, 1, sh))), "2*Constant": 2 * _u.Constant(msh, sh)}
+            ops = {"grad": grad, "nabla_grad": _u.nabla_grad, "grad(grad)": lambda x_: grad(grad(x_)), "nabla_grad + T": lambda x_: _u.nabla_grad(x_) + _u.nabla_grad(2 * x_)}
+            if sh and sh[-1] == 2:
+                ops["div"] = div
+            if sh and sh[0] == 2:
+                ops["nabla_div"] = _u.nabla_div
+            for oname, op in ops.items():
+                e = op(fld)
+                for iname, img in images.items():
+                    try:
+                        r = replace(e, {fld: img})
+                    except ValueError as ex:
+                        if not deliberate(ex):
+                            return violated(f"crash instead of a result or a refusal: {crash_text(ex)}", reproduced=True, backend="exec")
+                        return violated(f"replace({oname}(u), u -> {iname}) with u of shape {sh} is refused ({ex}) although the image has the shape of u",
+                                        replay={"operator": oname, "image": iname, "shape": list(sh)}, reproduced=True, backend="exec")
+                    n += 1
+                    if r.ufl_shape != e.ufl_shape:
+                        return violated(f"replace({oname}(u), u -> {iname}) with u of shape {sh}: the result has shape {r.ufl_shape}, the expression has shape {e.ufl_shape}",
+                                        replay={"operator": oname, "image": iname, "shape": list(sh), "result": repr(r)[:300]}, reproduced=True, backend="structural")
+                    res = check_same(plain, r, subst_den({fld: img}, e), e.ufl_shape, timeout_ms=tmo, what=f"replace({oname}(u{list(sh)}), u -> {iname})")
+                    if res.status != "proved":
+                        return res
+        return proved("exec+z3", vcs=n, sample=f"{n} (operator, field shape, image) cases: shape kept, value = operator applied to the image (0 for cellwise-constant images)")
+    run.add("replace/cellwise-constant-images-under-differential-operators", constant_images, kind="values")
+
     # ---- base forms: replace distributes over a weighted FormSum; a component that vanishes under the mapping takes ITS OWN weight with it
     def formsum_weights():
         from ufl import Action, Cofunction, FormSum, Matrix, ZeroBaseForm, TestFunction as TF
